@@ -55,6 +55,9 @@ let () =
           (* the control of justify over m_dir: expected reversal skeleton per call, checked against the recorded events *)
           let dword = ref None and fdir = ref false and bidi = ref false and jpass = ref false in
           let jtoks = ref [] and injust = ref false in
+          (* the bracket of a call: the second set-ends must put back exactly the ends that were in force when the first one was made
+             (justify keeps them in oldFirst / oldLast, taken right before it installs the line's ends) *)
+          let jsaved = ref None and jse = ref 0 in
           let rec n_of_i i = if i <= 0 then N0 else Npos (pos_of_i i) and pos_of_i i = if i = 1 then XH else if i land 1 = 0 then XO (pos_of_i (i lsr 1)) else XI (pos_of_i (i lsr 1)) in
           let close_just k =
             (if !injust then (match !dword with
@@ -101,13 +104,30 @@ let () =
                 else if show !st <> tok then verdict := Printf.sprintf "MISMATCH @tok%d model=%s impl=%s" k (show !st) tok end
               end
               else if n >= 2 && String.sub tok 0 2 = "lb" then begin papp k (PBreak (nat_of_int (int_of_string (String.sub tok 2 (n - 2))))); apply (LBreak (n_of_int (int_of_string (String.sub tok 2 (n - 2))))) end
-              else if n >= 2 && String.sub tok 0 2 = "se" then (if !injust then jtoks := false :: !jtoks; match split ',' (String.sub tok 2 (n - 2)) with [a; b] -> papp k (PSetEnds (popt a, popt b)); apply (LSetEnds (opt a, opt b)) | _ -> ())
+              else if n >= 2 && String.sub tok 0 2 = "se" then begin
+                (if !injust then jtoks := false :: !jtoks);
+                (match split ',' (String.sub tok 2 (n - 2)) with
+                 | [a; b] ->
+                   (if !injust then begin
+                      (match !pst with
+                       | Some s0 when !pverdict = "" ->
+                         if !jse = 0 then jsaved := Some (s0.p_first, s0.p_last)
+                         else if !jse = 1 then (match !jsaved with
+                                                | Some (f0, l0) when (f0, l0) <> (popt a, popt b) ->
+                                                  pverdict := Printf.sprintf "RESTORE @tok%d expected=%s,%s got=%s,%s" k (pshow f0) (pshow l0) a b
+                                                | _ -> ())
+                       | _ -> ());
+                      incr jse
+                    end);
+                   papp k (PSetEnds (popt a, popt b)); apply (LSetEnds (opt a, opt b))
+                 | _ -> ())
+              end
               else if n >= 3 && String.sub tok 0 2 = "ae" then (match split ',' (String.sub tok 2 (n - 2)) with
                                                                | [e; nn; x] -> papp k (PAddEnd (nat_of_int (int_of_string e), popt nn, x = "1"))
                                                                | _ -> ())
               else if n >= 3 && String.sub tok 0 2 = "de" then papp k (PDelEnd (nat_of_int (int_of_string (String.sub tok 2 (n - 2)))))
               else if tok.[0] = 'r' then begin (if !injust then jtoks := true :: !jtoks); papp k PReverse; apply (LReverse (if tok = "r-" then [] else List.init (n - 1) (fun j -> tok.[j + 1] = '1'))) end
-              else if tok.[0] = 'j' then begin close_just k; injust := true end
+              else if tok.[0] = 'j' then begin close_just k; injust := true; jsaved := None; jse := 0 end
               else ()      (* events of justification passes (attach etc.) do not concern the line structure *)
             end) rest;
           let pv = (match !pst with None -> "none" | Some _ -> if !pverdict = "" then Printf.sprintf "ok snaps=%d" !psnaps else !pverdict) in
